@@ -767,14 +767,15 @@ func (ch *BandCholesky) Factorize(a SymBanded) (ok bool) {
 		Data:   ch.chol.RawTriBand().Data,
 		Stride: ch.chol.RawTriBand().Stride,
 	}
+	work := getFloat64s(3*n, false)
+	aNorm := lapack64.Lansb(CondNorm, cSym, work)
 	_, ok = lapack64.Pbtrf(cSym)
 	if !ok {
+		putFloat64s(work)
 		ch.Reset()
 		return false
 	}
-	work := getFloat64s(3*n, false)
 	iwork := getInts(n, false)
-	aNorm := lapack64.Lansb(CondNorm, cSym, work)
 	ch.cond = 1 / lapack64.Pbcon(cSym, aNorm, work, iwork)
 	putInts(iwork)
 	putFloat64s(work)
